@@ -13,7 +13,7 @@ INT_BOUNDS = ["0", "1", "2", "10", "255", "1000", "65535", "4294967295", "900719
 NUM_BOUNDS = ["0", "1", "-1", "-5", "100", "0.5", "-0.5", "3.14", "-273.15", "1e3", "1.5e-3", "-2e10", "1000000", "0.1", "99.999", "1e21", "2.5E2",
               "1_000_000", "-2_500", "255u8", "0.5f64", "-1.5f32", "0xFF", "1_000.5", "10i64", "1e3f64", "(5)", "-(5)"]
 MSG_WORDS = ["must", "not", "be", "empty", "email", "url", "min", "max", "length", "range", "message", "value", "too", "long", "short", "between"]
-MSG_SPECIAL = ["é", "ü", "ñ", "日本", "😀", "→", "'", "\\\"", "\\\\", "(", ")", ",", "=", "<b>", "${x}", "`", ";", ":", "%", "\\n", "\\t", "  ", "#", "[", "]", "{", "}"]
+MSG_SPECIAL = ["\\\").", "(inclusive). Please", ").min(", "})", "a rather long clause that makes the rendered chain exceed any sensible line width, twice over", ".max(5)", "é", "ü", "ñ", "日本", "😀", "→", "'", "\\\"", "\\\\", "(", ")", ",", "=", "<b>", "${x}", "`", ";", ":", "%", "\\n", "\\t", "  ", "#", "[", "]", "{", "}"]
 
 
 def rand_message(rnd):
